@@ -244,9 +244,8 @@ func (r *Repository) SetReferrersCapability(capable bool) error {
 
 // setReferrersState atomically loads r.referrersState.
 func (r *Repository) loadReferrersState() referrersState {
-	state := atomic.LoadInt32(&r.referrersState)
-	verifhook.Point("remote.loadReferrersState")
-	return state
+	defer verifhook.Point("remote.loadReferrersState") // after the load
+	return atomic.LoadInt32(&r.referrersState)
 }
 
 // client returns an HTTP client used to access the remote repository.
